@@ -414,6 +414,14 @@ theorem constraint_roundtrip (showI : Int → Str) (parseI : Str → Option Int)
   | textVar v => exact absurd hp (by simp [CnPrintable])
   | dataVar v q => exact absurd hp (by simp [CnPrintable])
   | keyValueVar v o q => exact absurd hp (by simp [CnPrintable])
+  | annotation s q r off => exact absurd hp (by simp [CnPrintable])
+  | annotationVar v q r off => exact absurd hp (by simp [CnPrintable])
+  | resource s q off => exact absurd hp (by simp [CnPrintable])
+  | resourceVar v q off => exact absurd hp (by simp [CnPrintable])
+  | relation v op => exact absurd hp (by simp [CnPrintable])
+  | value o q => exact absurd hp (by simp [CnPrintable])
+  | keyVar v q => exact absurd hp (by simp [CnPrintable])
+  | limit b e => exact absurd hp (by simp [CnPrintable])
 
 /-! ### the hypotheses are needed: identifiers the grammar reads differently (the known findings of C09) -/
 
